@@ -12,6 +12,7 @@ The backend is a parameter (`Codec`).  `stubCodec` is the backend double of the 
 byte and so that the contract (`CodecLaws`) is known to be satisfiable.
 -/
 import LasModel.Model.FileIO
+import LasModel.Model.Appender
 import LasModel.Gen.Funs
 namespace LasModel.CompressIO
 open LasModel.Bytes LasModel.Header LasModel.Vlr LasModel.FileIO
@@ -26,6 +27,10 @@ structure Codec where
   /-- `decompress_many` into a buffer for `n` points, by a decompressor created on a stream
       whose remaining content is the given bytes -/
   decompress : Bytes → Bytes → Nat → Bytes
+  /-- what an appender created on a destination positioned at `start` (the point offset), whose content from there
+      on is `existing`, leaves from `start` on after the given `compress_many` calls and `done()` (the position is
+      then at its end) -/
+  append : Bytes → Nat → Bytes → List (List Rec) → Bytes
 
 /-- the backend contract laspy relies on: points come back, whatever the chunking of the
     writing calls, whatever follows the compressed stream, for every prefix length -/
@@ -166,6 +171,72 @@ def readFileC (cd : Codec) (file : Bytes) : Except CRErr ReadResult :=
           else .ok { hdr := { h with vlrs := popLasZip h.vlrs }, records := splitRecs h.recLen h.count data,
                      evlrs := readEvlrs h file }
 
+/-! ### appending to a compressed file (laspy/lasappender.py with `LazrsAppender`) -/
+
+open LasModel.Appender in
+structure AC (F : Type) where
+  hdr : Hdr
+  stats : Stats F
+  lz : Bytes
+  file : Bytes
+  offset : Nat
+  chunks : List (List Rec)
+  evlrs : List Vlr
+
+open LasModel.Appender in
+/-- `LasAppender.__init__` on a compressed file: the header is read (which leaves the destination at the point offset),
+    the backend's appender is created there with the file's LasZip record, the EVLRs are remembered.  (The assertion
+    that the appender left the position before the EVLRs depends on the backend and is not modelled.) -/
+def openAppendC {F} (o : FOps F) (file : Bytes) : Except AErr (AC F) :=
+  match decodeHdr file with
+  | .error e => .error (.header e)
+  | .ok h =>
+    if ¬ Gen.formatIds.contains (fmtOf h) then .error .pointFormat
+    else if h.recLen < Gen.recLen (fmtOf h) then .error .pointFormat
+    else match findLasZip h.vlrs with
+      | none => .error .pointFormat
+      | some v =>
+        let evlrs := if h.vMinor ≥ 4 ∧ h.nEvlrs > 0 then (decodeVlrs true h.nEvlrs (file.drop h.evlrStart)).1 else []
+        .ok { hdr := h, stats := statsOfHdr o h, lz := v.payload, file := file, offset := fileOffset file, chunks := [],
+              evlrs := evlrs }
+
+open LasModel.Appender in
+/-- `LasAppender.append_points` -/
+def appendPointsC {F} (o : FOps F) (s : AC F) (c : Chunk) : Except AErr (AC F) :=
+  if c.fmt ≠ fmtOf s.hdr ∨ c.recLen ≠ s.hdr.recLen then .error .format
+  else if maxPointCount s.hdr.vMinor - s.stats.count < c.recs.length then .error .capacity
+  else if c.recs.isEmpty then .ok s
+  else .ok { s with stats := grow o (fmtOf s.hdr) s.stats c.recs, chunks := s.chunks ++ [c.recs] }
+
+open LasModel.Appender in
+/-- `LasAppender.close`: the backend's `done()`, the EVLRs where it stopped, the header in place -/
+def closeAppendC {F} (cd : Codec) (o : FOps F) (s : AC F) : Except AErr Bytes :=
+  match encodeVlrs true s.evlrs with
+  | .error _ => .error .vlr
+  | .ok eb =>
+    let body := cd.append s.lz s.offset (s.file.drop s.offset) s.chunks
+    let store1 := writeAt s.file s.offset body
+    let hasEv := s.hdr.vMinor ≥ 4 ∧ ¬ s.evlrs.isEmpty
+    let store2 := if hasEv then writeAt store1 (s.offset + body.length) eb else store1
+    let es := if hasEv then s.offset + body.length else s.hdr.evlrStart
+    match encodeHdr (withStats o s.hdr s.stats es s.hdr.nEvlrs) true s.offset with
+    | .error e => .error (.rewrite e)
+    | .ok enc => .ok (writeAt store2 0 enc)
+
+open LasModel.Appender in
+def appendSessionC {F} (cd : Codec) (o : FOps F) (file : Bytes) (chunks : List Chunk) : Except AErr Bytes :=
+  match openAppendC o file with
+  | .error e => .error e
+  | .ok s =>
+    let rec go (s : AC F) : List Chunk → Except AErr (AC F)
+      | [] => .ok s
+      | c :: cs => match appendPointsC o s c with
+        | .error e => .error e
+        | .ok s' => go s' cs
+    match go s chunks with
+    | .error e => .error e
+    | .ok s' => closeAppendC cd o s'
+
 /-! ### the backend double of the harness, written out -/
 
 /-- "STUBLAZ1" -/
@@ -201,5 +272,15 @@ def stubCodec (cs : Nat) : Codec where
       leBytes 4 0 ++ leBytes 4 table.length ++ table.flatMap fun e => leBytes 8 e.1 ++ leBytes 8 e.2
   decompress p bytes n :=
     xorFrom (stubChunkSize p * stubItem p) 0 ((bytes.drop 8).take (n * stubItem p))
+  append p start existing more :=
+    -- the appender re-opens the last (possibly partial) chunk: the result is the stream of all the points
+    let item := stubItem p
+    let c := stubChunkSize p
+    let nbytes := leNat (existing.take 8) - start - 8
+    let old := xorFrom (c * item) 0 ((existing.drop 8).take nbytes)
+    let data := old ++ more.flatten.flatten
+    let table := stubTable item c (data.length + 1) data.length
+    leBytes 8 (start + 8 + data.length) ++ xorFrom (c * item) 0 data ++
+      leBytes 4 0 ++ leBytes 4 table.length ++ table.flatMap fun e => leBytes 8 e.1 ++ leBytes 8 e.2
 
 end LasModel.CompressIO
